@@ -53,6 +53,8 @@ def plan(tier, seed):
 
 
 def family(label):
+    if label.startswith("concurrent-twin"):
+        return "concurrent-twin-shares-verification"
     if label.startswith("id=") or label.startswith("id-"):
         return "supplied-id-not-the-hash" if not any(x in label for x in ("63", "65", "non-hex", "upper", "=5", "None", "[]", "True", "missing")) else "id-malformed"
     if label.startswith("pubkey=upper"):
@@ -88,7 +90,7 @@ def find_stored(d, case):
     raw = case["raw"]
     rid = raw.get("id") if isinstance(raw, dict) else None
     for eid, ev in d["events"].items():
-        if (isinstance(rid, str) and eid == rid.lower()) or (case["token"] and isinstance(ev.get("content"), str) and case["token"] in ev["content"]):
+        if (isinstance(rid, str) and eid == rid.lower() and not case.get("by_token_only")) or (case["token"] and isinstance(ev.get("content"), str) and case["token"] in ev["content"]):
             out.append(eid)
     return out
 
@@ -122,7 +124,7 @@ def judge(backend, path, cases, d, pushed, counters):
         taps["pushed"] = taps.get("pushed", 0) + 1
         rid = raw.get("id") if isinstance(raw, dict) else None
         for ev in pushed:
-            if (isinstance(rid, str) and ev.get("id") == rid) or (c["token"] and isinstance(ev.get("content"), str) and c["token"] in ev["content"]):
+            if (isinstance(rid, str) and ev.get("id") == rid and not c.get("by_token_only")) or (c["token"] and isinstance(ev.get("content"), str) and c["token"] in ev["content"]):
                 viols.append({"key": "pushed/" + fam, "msg": "[%s/%s] %s (%s): not authentic (%s) yet pushed to a subscriber"
                               % (backend, path, c["label"], c["shape"], why), "replay": rp})
                 break
@@ -162,6 +164,38 @@ async def run_ws_api(backend, path, cases, counters):
                 except Exception as e:
                     c["ok"], c["reason"] = False, "exception " + repr(e)[:100]
             counters["submissions"] = counters.get("submissions", 0) + 1
+        # ---- concurrent twins: a forgery that keeps id and sig of a genuine event and arrives on
+        # another connection WHILE the genuine one is being verified (validators run in threads)
+        if path == "ws":
+            seeds = subm.Seeds(7)
+            conn2 = rig.connect("sub2")
+            twins = []
+            import random as _r
+
+            rr = _r.Random(len(cases))
+            old_delay = rig.executor.delay
+            rig.executor.delay = lambda: rr.choice([0, 0.001, 0.002])
+            for j in range(12):
+                ev, key, tk = seeds.build({"kind": 1, "created_at": gen.T0 - 20 - j})
+                tk2 = subm.token("twin")
+                forged = dict(ev, content=ev["content"].replace(tk, tk2))
+                order = j % 3
+                n1, n2 = rig.rec.n, rig.rec.n
+                if order == 0:
+                    conn.feed(["EVENT", ev]); conn2.feed(["EVENT", forged])
+                elif order == 1:
+                    conn2.feed(["EVENT", forged]); conn.feed(["EVENT", ev])
+                else:
+                    conn.feed(["EVENT", ev]); await asyncio.sleep(0); conn2.feed(["EVENT", forged])
+                await conn.processed(); await conn2.processed()
+                await rig.quiesce()
+                oks2 = R.ok_frames(conn2, n2)
+                ok2 = next((f[2] for _, f in oks2 if len(f) > 2 and f[1] in (ev["id"], "")), None) if oks2 else None
+                twins.append({"shape": "kind1", "label": "concurrent-twin (same id+sig, content altered, order %d)" % order, "raw": forged, "token": tk2, "consistent": False,
+                              "ok": oks2[-1][1][2] if oks2 else None, "by_token_only": True})
+                counters["concurrent_twins"] = counters.get("concurrent_twins", 0) + 1
+            rig.executor.delay = old_delay
+            cases.extend(twins)
         await rig.quiesce()
         d = dump.dump(rig)
         pushed = [f[2] for n, f in watcher.parsed_frames() if isinstance(f, list) and len(f) >= 3 and f[0] == "EVENT" and isinstance(f[2], dict)]
